@@ -36,6 +36,7 @@ type SchemaSpec struct {
 	Types  []TypeRef
 	IsType bool // meant to be added to roots (still a full Schema object)
 	Ext    bool // entry of the root-kind extension (pool_roots.go): in AllRoots() only, so that x/c12 keeps its pool
+	Bind   bool // entry of the binding family (pool_bind.go): in BindRoots() only
 }
 
 // UsesAllOf: the text carries an allOf rule (such an object is rewritten in
@@ -119,6 +120,7 @@ func rx(name string, i int) TypeRef { return TypeRef{Name: name, Kind: KRegex, S
 func init() {
 	initBasePool()
 	initRootKinds()
+	initBindFamily()
 	badDocs = malformedDocs()
 }
 
@@ -216,7 +218,7 @@ func Roots() []int {
 func AllRoots() []int {
 	var out []int
 	for i, s := range Schemas {
-		if !s.IsType {
+		if !s.IsType && !s.Bind {
 			out = append(out, i)
 		}
 	}
